@@ -82,6 +82,33 @@ pub fn fill_cells(rng: &mut Rng, ws: &mut umya_spreadsheet::Worksheet, ncells: u
             }
         }
     }
+    // a table over a block of cells: being the header or a body cell of a table does not change what kind of value a cell holds
+    if ncells > 0 && rng.chance(1, 4) {
+        *uid += 1;
+        let (c1, r1, w, h) = (rng.range(20, 30), 100 + rng.range(0, 50), rng.range(1, 4), rng.range(1, 3));
+        let mut t = umya_spreadsheet::Table::new(&format!("T{}", uid), ((c1, r1), (c1 + w - 1, r1 + h)));
+        for j in 0..w {
+            let cell = ws.get_cell_mut((c1 + j, r1));
+            match rng.below(4) {
+                0 => {
+                    cell.set_value_number((*uid + j) as f64 + 0.5);
+                }
+                1 => {
+                    cell.set_value_bool(j % 2 == 0);
+                }
+                _ => {
+                    cell.set_value_string(format!("head{}-{}", uid, j));
+                }
+            }
+            let name = cell.get_value().to_string();
+            t.add_column(umya_spreadsheet::TableColumn::new(&name));
+            for i in 1..=h {
+                ws.get_cell_mut((c1 + j, r1 + i)).set_value_number((i * 10 + j) as f64);
+            }
+        }
+        ws.add_table(t);
+        o.count("tables-over-cells", 1);
+    }
     // the other public ways of putting a cell on a sheet, aimed at rows nothing has touched yet
     if ncells > 0 && rng.chance(1, 3) {
         for _ in 0..rng.range(1, 4) {
